@@ -357,7 +357,7 @@ def predsDeclared (g : Graph) : Bool := g.preds.all fun p => p.binds.all fun l =
 /-- every message (round, kind) carries at least one bound leaf: replacing a whole message, or
 dropping it, is a deviation on a bound leaf -/
 def everyMessageBound (g : Graph) : Bool :=
-  g.leaves.all fun l => g.leaves.any fun l' => l'.round == l.round && l'.kind == l.kind && g.bound l'
+  g.preds.isEmpty || g.leaves.all fun l => g.messageBound l.round l.kind
 
 /-- predicates evaluated by receivers inside the sender loop are tagged, except the listed aggregate
 checks (which see only sums: `pk` sum, `oldPk = newPk`, the multiplier's `mu`, OT consistency) -/
@@ -412,7 +412,7 @@ example : receive g.preds (fun p s => decide (holds p () (tamperedMsg s))) [1, 2
 
 example : receive g.preds (fun p s => decide (holds p () (honestMsg s))) [1, 2, 3] = Verdict.accept := by decide
 
-example : g.classify 2 .bcast "nonce" = .unboundLeaf lFree := by decide
+example : g.bound lFree = false ∧ g.bound lM = true ∧ g.bound lC = true := by decide
 
 /-- blame soundness on the toy run: the blamed party is the deviator 2 -/
 example : (2 : Nat) = 2 :=
